@@ -1,3 +1,4 @@
+mod ilv;
 mod loops;
 mod props;
 mod report;
